@@ -7,6 +7,12 @@ package main
 //                         and the sorted channel capacities, counted here by a plain name-based
 //                         go/ast walk over the source, vs the same numbers computed by the
 //                         extracted model from the generated net.
+//   proc_faults <net>   : "every `return` of a stage goroutine that is not behind ctx.Done() /
+//                         ctx.Err() and does not follow a result send is directly preceded by
+//                         a call of cancel", the number of `defer ...cancel(nil)` and the number
+//                         of error tests separated from their operation by a select, decided
+//                         here by a plain go/ast walk, vs faults_cancel / the counts computed
+//                         by the extracted model from the generated net.
 //   proc_can_leak send  : the real sender against a peer that falls silent during the
 //                         buffer-size probing phase: are pipeline goroutines still alive one
 //                         second after the client returned?  vs  wf (send_net) = false.
@@ -21,6 +27,7 @@ import (
 	"sort"
 	"strconv"
 	"strings"
+	"time"
 
 	"github.com/trzsz/trzsz-go/trzsz"
 )
@@ -170,6 +177,12 @@ func (ps *procSrc) procCount(mainFn string) string {
 					ranges++
 				}
 			case *ast.CallExpr:
+				if id, ok := n.Fun.(*ast.Ident); ok && id.Name == "make" && len(n.Args) == 1 {
+					// an unbuffered channel (capacity 0), e.g. one that is only ever closed (saveDone)
+					if _, ok := n.Args[0].(*ast.ChanType); ok {
+						caps = append(caps, 0)
+					}
+				}
 				if id, ok := n.Fun.(*ast.Ident); ok && id.Name == "make" && len(n.Args) == 2 {
 					if _, ok := n.Args[0].(*ast.ChanType); ok {
 						switch a := n.Args[1].(type) {
@@ -190,18 +203,218 @@ func (ps *procSrc) procCount(mainFn string) string {
 	return ints(append(out, caps...))
 }
 
+// procStageBodies: the `go func` bodies of the pipeline* functions called by the main function,
+// and the bodies of result-less pipeline* helpers those goroutines call
+func (ps *procSrc) procStageBodies(mainFn string) []*ast.BlockStmt {
+	var out []*ast.BlockStmt
+	seen := map[string]bool{}
+	var addCalls func(n ast.Node, helpers bool)
+	addCalls = func(n ast.Node, helpers bool) {
+		ast.Inspect(n, func(x ast.Node) bool {
+			call, ok := x.(*ast.CallExpr)
+			if !ok {
+				return true
+			}
+			sel, ok := call.Fun.(*ast.SelectorExpr)
+			if !ok || !strings.HasPrefix(sel.Sel.Name, "pipeline") || seen[sel.Sel.Name] {
+				return true
+			}
+			fd := ps.funcs[sel.Sel.Name]
+			if fd == nil || fd.Body == nil {
+				return true
+			}
+			if helpers {
+				if fd.Type.Results == nil || len(fd.Type.Results.List) == 0 {
+					seen[sel.Sel.Name] = true
+					out = append(out, fd.Body)
+				}
+				return true
+			}
+			seen[sel.Sel.Name] = true
+			ast.Inspect(fd.Body, func(y ast.Node) bool {
+				if g, ok := y.(*ast.GoStmt); ok {
+					if lit, ok := g.Call.Fun.(*ast.FuncLit); ok {
+						out = append(out, lit.Body)
+						addCalls(lit.Body, true)
+					}
+				}
+				return true
+			})
+			return true
+		})
+	}
+	addCalls(ps.funcs[mainFn].Body, false)
+	return out
+}
+
+func procIsCancelCall(st ast.Stmt) bool {
+	es, ok := st.(*ast.ExprStmt)
+	if !ok {
+		return false
+	}
+	call, ok := es.X.(*ast.CallExpr)
+	if !ok {
+		return false
+	}
+	switch f := call.Fun.(type) {
+	case *ast.Ident:
+		return f.Name == "cancel"
+	case *ast.SelectorExpr:
+		return f.Sel.Name == "cancel"
+	}
+	return false
+}
+
+func procMentions(n ast.Node, name string) bool {
+	found := false
+	ast.Inspect(n, func(x ast.Node) bool {
+		if id, ok := x.(*ast.Ident); ok && id.Name == name {
+			found = true
+		}
+		return true
+	})
+	return found
+}
+
+func procIsCtx(e ast.Expr, method string) bool {
+	call, ok := e.(*ast.CallExpr)
+	if !ok {
+		return false
+	}
+	sel, ok := call.Fun.(*ast.SelectorExpr)
+	return ok && sel.Sel.Name == method
+}
+
+// procFaults: "returns are preceded by cancel", deferred cancel(nil) of the main function,
+// error tests separated from their operation by a select
+func (ps *procSrc) procFaults(mainFn string) string {
+	ok := true
+	waits := 0
+	var walk func(list []ast.Stmt, done bool)
+	walk = func(list []ast.Stmt, done bool) {
+		for i, st := range list {
+			switch s := st.(type) {
+			case *ast.ReturnStmt:
+				good := done
+				if i > 0 {
+					if _, isSend := list[i-1].(*ast.SendStmt); isSend || procIsCancelCall(list[i-1]) {
+						good = true
+					}
+				}
+				if !good {
+					ok = false
+				}
+			case *ast.AssignStmt:
+				// `..., err := CALL` ... select ... `if .. err ..`
+				if len(s.Rhs) == 1 && len(s.Lhs) > 0 {
+					if id, isId := s.Lhs[len(s.Lhs)-1].(*ast.Ident); isId && id.Name == "err" {
+						if _, isCall := s.Rhs[0].(*ast.CallExpr); isCall {
+							sel := false
+							for _, nx := range list[i+1:] {
+								if ifs, isIf := nx.(*ast.IfStmt); isIf && procMentions(ifs.Cond, "err") {
+									if sel {
+										waits++
+									}
+									break
+								}
+								ast.Inspect(nx, func(x ast.Node) bool {
+									if _, isSel := x.(*ast.SelectStmt); isSel {
+										sel = true
+									}
+									return true
+								})
+							}
+						}
+					}
+				}
+			case *ast.IfStmt:
+				if be, isBin := s.Cond.(*ast.BinaryExpr); isBin && be.Op == token.NEQ && procIsCtx(be.X, "Err") && len(s.Body.List) == 1 {
+					if _, isRet := s.Body.List[0].(*ast.ReturnStmt); isRet {
+						continue
+					}
+				}
+				walk(s.Body.List, done)
+				switch e := s.Else.(type) {
+				case *ast.BlockStmt:
+					walk(e.List, done)
+				case *ast.IfStmt:
+					walk([]ast.Stmt{e}, done)
+				}
+			case *ast.ForStmt:
+				walk(s.Body.List, done)
+			case *ast.RangeStmt:
+				walk(s.Body.List, done)
+			case *ast.BlockStmt:
+				walk(s.List, done)
+			case *ast.SwitchStmt:
+				for _, cl := range s.Body.List {
+					walk(cl.(*ast.CaseClause).Body, done)
+				}
+			case *ast.SelectStmt:
+				for _, cl := range s.Body.List {
+					cc := cl.(*ast.CommClause)
+					d := done
+					if es, isExpr := cc.Comm.(*ast.ExprStmt); isExpr {
+						if u, isU := es.X.(*ast.UnaryExpr); isU && u.Op == token.ARROW && procIsCtx(u.X, "Done") {
+							d = true
+						}
+					}
+					walk(cc.Body, d)
+				}
+			}
+		}
+	}
+	for _, b := range ps.procStageBodies(mainFn) {
+		walk(b.List, false)
+	}
+	deferCancel := 0
+	for _, st := range ps.funcs[mainFn].Body.List {
+		if d, isDefer := st.(*ast.DeferStmt); isDefer && procIsCancelCall(&ast.ExprStmt{X: d.Call}) {
+			if len(d.Call.Args) == 1 {
+				if id, isId := d.Call.Args[0].(*ast.Ident); isId && id.Name == "nil" {
+					deferCancel++
+				}
+			}
+		}
+	}
+	r := "0"
+	if ok {
+		r = "1"
+	}
+	return fmt.Sprintf("%s,%d,%d", r, deferCancel, waits)
+}
+
 func genProc(c *ctx) {
 	ps := procLoad()
 	for _, n := range [][2]string{{"send", "sendFileDataV2"}, {"recv", "recvFileDataV2"}, {"hash", "sendPrefixHash"}} {
 		res := ps.procCount(n[1])
 		c.count("net:" + n[0] + ":" + res)
 		c.emit(true, "proc_counts", res, n[0])
+		fr := ps.procFaults(n[1])
+		c.count("faults:" + n[0] + ":" + fr)
+		c.emit(true, "proc_faults", fr, n[0])
 	}
 	// the silent-peer scenario on the real sender; the peer vanishes at the 1st / 2nd DATA frame
 	leaked := false
 	for _, skip := range []int{0, 1} {
 		dir, _ := os.MkdirTemp("", "verif_proc")
-		errText, elapsed, left := trzsz.VerifSendToSilentPeer(dir, 3<<20, 2, skip, 1000)
+		var errText string
+		var elapsed time.Duration
+		var left []string
+		procDone := make(chan struct{})
+		go func() {
+			errText, elapsed, left = trzsz.VerifSendToSilentPeer(dir, 3<<20, 2, skip, 1000)
+			close(procDone)
+		}()
+		select {
+		case <-procDone:
+		case <-time.After(30 * time.Second):
+			c.count(fmt.Sprintf("silent-peer:skip=%d:hung", skip))
+			c.violate("silent-peer-hang", "the sender never returned although the peer fell silent (timeout 2 s, waited 30 s)",
+				fmt.Sprintf("VerifSendToSilentPeer(size=3MiB, timeout=2s, peer silent from DATA frame %d)", skip+1))
+			leaked = true
+			continue
+		}
 		os.RemoveAll(dir)
 		c.count(fmt.Sprintf("silent-peer:skip=%d:err=%q:left=%d", skip, errText, len(left)))
 		if errText == "" {
